@@ -25,7 +25,7 @@ func junkPaths() clip.Paths64 {
 // C12: an engine's answer depends only on the paths added, not on its history.
 func cmdC12(r *RNG, n int, e *Emitter, args []string) {
 	for i := 0; i < n; i++ {
-		takeDiscards()
+		clearEvents()
 		useD := r.Intn(3) == 0
 		G := []int64{6, 10, 16, 32}[r.Intn(4)]
 		var hist []histOp
